@@ -22,6 +22,21 @@ def run(chk):
         if fam in ("literal", "pslot", "args"):      # keyword literals match by kind: the program spells them differently from the pattern
             total += macro.replay(chk, th, fam, macros, cases, "c09:altcase", layout="altcase")
         chk.add("rewriting_paths", len(cases))
+    # slots are the language's own values / statement sequences (C09's wording): a call without arguments is a value, a statement with
+    # two labels is a statement - whatever the language accepts there a slot must match (controls: one argument, one label)
+    from common import run_th
+    slot = [("c09:slot:zeroargs", "PROGRAM five DO x0 := 5 END\nDEFINE DBL <V> AS $0 END DEFINE\nx := DBL RUN five WITH END\n"),
+            ("c09:slot:onearg", "PROGRAM five IN a DO x0 := 5 END\nDEFINE DBL <V> AS $0 END DEFINE\nx := DBL RUN five WITH 1 END\n"),
+            ("c09:slot:twolabels", "DEFINE WRAP <P> ENDWRAP AS $0 END DEFINE\nWRAP b: c: z := z + 1 ENDWRAP\n"),
+            ("c09:slot:onelabel", "DEFINE WRAP <P> ENDWRAP AS $0 END DEFINE\nWRAP b: z := z + 1 ENDWRAP\n")]
+    recs, rc, err = run_th(th, ["compile"], [{"i": i, "files": {"m": src}, "main": "m"} for i, (_, src) in enumerate(slot)], timeout=300)
+    got = {x["i"]: x for x in recs if "ok" in x}
+    for i, (key, src) in enumerate(slot):
+        x = got.get(i)
+        if x is None or not x["ok"]:
+            chk.violation(key, "a macro use whose slot is filled with a legal %s of the language is not expanded (the source is rejected): %r"
+                          % ("value" if "DBL" in src else "statement sequence", src), {"source": src, "result": x})
+    chk.add("slot_instances_from_the_language_grammar", len(slot))
     # end to end: sources using macros must behave like their documented meaning (C01's pipeline, macro-heavy profile)
     progs = sem.generate(chk.seed + 90, 1500 if chk.thorough else 250, canon=False, profile="macroheavy")
     sem.run_real(chk, th, progs)
